@@ -131,7 +131,8 @@ class LeakyReluPlugin(PrimitiveLeafPlugin):
         ) -> Callable[..., ArrayLike]:
             if orig is None:
                 raise RuntimeError("Original jax.nn.leaky_relu not found")
-            return lambda *args, **kwargs: cls._PRIM.bind(*args, **kwargs)
+            # the hyper-parameter is a keyword of the primitive, however it was passed
+            return lambda x, negative_slope=0.01: cls._PRIM.bind(x, negative_slope=negative_slope)
 
         return [
             AssignSpec("jax.nn", "leaky_relu_p", cls._PRIM, delete_if_missing=True),
